@@ -62,4 +62,24 @@ REGISTRY = {
         'explanation': 'poller contracts discharged by z3',
         'not_decided': ['actual kernel readiness', 'KQueue'],
     },
+    'C02': {
+        'modules': ['contracts.core_queue', 'contracts.core_dispatch'], 'level': 'proof',
+        'level_text': 'Queue representation invariant with a ghost last-popped key: pops of one pass are strictly ascending in '
+                      '(priority, fire order) including nested flushes, fired events only reach the fifo, the fifo is moved only '
+                      'when the snapshot is exhausted; the dispatcher invokes the sorted handler list in order, once each, and '
+                      'leaves the loop at the first handler after which event.stopped is set. Unbounded (loop invariants, rely/guarantee '
+                      'for re-entrant handlers).',
+        'level_note': 'trusted: heapq.heappush/heappop (multiset + minimum), sorted(..., reverse=True) (descending permutation); '
+                      'NaN priorities excluded; one thread.',
+        'explanation': 'queue and dispatch-order contracts discharged by z3',
+    },
+    'C04': {
+        'modules': ['contracts.core_dispatch'], 'level': 'proof',
+        'level_text': 'Per-handler case analysis of the dispatcher loop body for an arbitrary iteration (loop invariant), contracts on '
+                      '_eventDone, processTask and Value.setValue: results stored once in order, one exception (+ one failure) event per '
+                      'raising handler with the loop continuing, success fired iff requested, no handler raised and none is waiting.',
+        'level_note': 'trusted: handlers as callbacks with the stated rely; sys.exc_info as three non-None opaque values; generators '
+                      'driven by next/send/throw are opaque callbacks.',
+        'explanation': 'dispatcher/result contracts discharged by z3',
+    },
 }
